@@ -69,7 +69,8 @@ def setup():
 
     try:
         for i in range(150):  # warm lazily imported paths once, before workers are forked
-            run_case(gen_case(Streams(derive_seed("warm", i)), "quick"))
+            # (numpy parameters only: torch and jax are imported lazily in the workers, after the fork)
+            run_case(dict(gen_case(Streams(derive_seed("warm", i)), "quick"), iface="numpy", diff=None))
     except Exception:  # noqa: BLE001 - warm-up only
         pass
 
@@ -81,12 +82,31 @@ def setup():
 ROT1 = ["RX", "RY", "RZ", "PhaseShift", "U1"]
 
 
-def _gen_base(w, n):
+def _arr_op(w, wires, big=False):
+    """An operator with an array-valued parameter.  `big`: more than 1000 entries (numpy abbreviates the
+    printed form of such arrays with '...')."""
+    n = len(wires)
+    if big:
+        if n >= 10:
+            name, ws = w.choice(["DiagonalQubitUnitary", "StatePrep"]), wires[:10]
+        else:
+            name, ws = "QubitUnitary", w.sample(wires, 5)
+    else:
+        name = w.choice(["QubitUnitary", "QubitUnitary", "DiagonalQubitUnitary", "StatePrep"])
+        ws = wires[:] if name == "StatePrep" else w.sample(wires, w.randint(1, min(3, n)))
+    return [name, ws, [{"seed": w.getrandbits(24), "bumps": []}]]
+
+
+def _gen_base(w, n, big=False):
     from checks import qgen
 
     wires = list(range(n))
     ops = []
-    for _ in range(w.randint(2, 6)):
+    if w.random() < (1.0 if big else 0.12):
+        ops.append(_arr_op(w, wires, big and (n >= 10 or w.random() < 0.6)))
+        if ops[-1][0] != "StatePrep" and w.random() < 0.5:
+            ops.insert(0, ["Hadamard", [w.choice(wires)], []])
+    for _ in range(w.randint(1, 3) if big else w.randint(2, 6)):
         k = w.random()
         if k < 0.35:
             ops.append([w.choice(ROT1), [w.choice(wires)], [qgen.rand_angle(w)]])
@@ -106,7 +126,7 @@ def _gen_base(w, n):
             ops[-1][2] = [qgen.rand_angle(w) for _ in range(3 if nm == "CRot" else 1)]
         else:
             ops.append(_wrap(w, [w.choice(ROT1), [wires[0]], [qgen.rand_angle(w)]], wires))
-    mps = _gen_mps(w, wires)
+    mps = _gen_mps(w, wires, big)
     return {"ops": ops, "mps": mps, "shots": None, "trainable": None}
 
 
@@ -128,11 +148,17 @@ def _wrap(w, opspec, wires):
     return ["adjoint", opspec]
 
 
-def _gen_mps(w, wires):
+def _gen_mps(w, wires, big=False):
     from checks import qgen
 
     mps = []
     k = w.random()
+    if big and k < 0.5 and len(wires) < 10:
+        # observables given by large arrays: a dense Hermitian of 1024 entries, a sparse Hamiltonian with
+        # more than 50 stored entries (scipy abbreviates its printed form beyond that)
+        if w.random() < 0.5 or len(wires) < 6:
+            return [["expval", ["HB", w.getrandbits(24), w.sample(wires, 5), []]]]
+        return [["expval", ["SPH", w.getrandbits(24), w.sample(wires, 6), []]]]
     if k < 0.25:
         return [["state"]]
     if k < 0.33:
@@ -175,15 +201,39 @@ def _mutate(w, tape, n):
     t = {"ops": [list(o) for o in tape["ops"]], "mps": [list(m) for m in tape["mps"]], "shots": None,
          "trainable": tape.get("trainable")}
     wires = list(range(n))
-    sites = list(_param_sites(t["ops"]))
+    all_sites = list(_param_sites(t["ops"]))
+    sites = [(pth, leaf) for pth, leaf in all_sites if not isinstance(leaf[2][0], dict)]
+    arr_sites = [(pth, leaf) for pth, leaf in all_sites if isinstance(leaf[2][0], dict)]
+    arr_obs = [i for i, m in enumerate(t["mps"]) if m[0] == "expval" and m[1][0] in ("HB", "SPH")]
     kind = w.choice(["dup", "shift", "shift", "shift", "relabel", "trainable", "wrap", "unwrap",
                      "measure", "measure", "delta", "swapops", "rename", "wrap_shift"])
+    if (arr_sites or arr_obs) and w.random() < 0.6:
+        kind = "arr_bump"
     if kind == "dup":
+        return t, kind
+    if kind == "arr_bump":
+        # the same circuit except for a few entries of one array-valued parameter
+        dl = w.choice([0.7, -0.3, 1e-2, 1e-4, 1e-6])
+        idx = w.getrandbits(16)
+        if arr_sites and (not arr_obs or w.random() < 0.6):
+            path, leaf = w.choice(arr_sites)
+
+            def fn_arr(o):
+                a = dict(o[2][0])
+                a["bumps"] = list(a["bumps"]) + [[idx, dl]]
+                return [o[0], o[1], [a]]
+
+            t["ops"][path[0]] = _replace_leaf(t["ops"][path[0]], fn_arr)
+        else:
+            i = w.choice(arr_obs)
+            ob = t["mps"][i][1]
+            t["mps"][i] = ["expval", [ob[0], ob[1], ob[2], list(ob[3]) + [[idx, dl]]]]
         return t, kind
     if kind in ("shift", "delta", "wrap_shift") and sites:
         path, leaf = w.choice(sites)
         j = w.randrange(len(leaf[2]))
-        d = w.choice([TWO_PI, -TWO_PI, 2 * TWO_PI, -2 * TWO_PI]) if kind != "delta" else w.choice([1e-3, -0.25])
+        d = (w.choice([TWO_PI, -TWO_PI, 2 * TWO_PI, -2 * TWO_PI]) if kind != "delta"
+             else w.choice([1e-3, -0.25, 1e-5, 2e-5, 1e-7]))
 
         def fn(o):
             p = list(o[2])
@@ -205,7 +255,7 @@ def _mutate(w, tape, n):
             t["mps"] = [qgen.map_mp_wires(m, wmap) for m in t["mps"]]
         return t, kind
     if kind == "trainable":
-        npar = sum(len(leaf[2]) for _, leaf in sites)
+        npar = sum(len(leaf[2]) for _, leaf in all_sites)
         if npar:
             t["trainable"] = sorted(w.sample(range(npar), w.randint(0, npar)))
         return t, kind
@@ -221,7 +271,7 @@ def _mutate(w, tape, n):
                 break
         return t, kind
     if kind == "measure":
-        t["mps"] = _gen_mps(w, wires)
+        t["mps"] = _gen_mps(w, wires, bool(arr_obs))
         if w.random() < 0.4 and tape["mps"][0][0] == "probs":
             t["mps"] = [["probs", list(reversed(tape["mps"][0][1]))]]
         return t, kind
@@ -242,6 +292,13 @@ def _mutate(w, tape, n):
 def gen_case(streams, tier):
     w, f = streams["workload"], streams["fault"]
     n = w.randint(1, 4)
+    big = w.random() < 0.10
+    if big:
+        n = w.choice([5, 5, 6, 6, 6, 10])
+    # the array library the parameters live in, and whether the workflow converts them to numpy before
+    # the cache sees them (diff_method=None) or not (backprop)
+    iface = w.choice(["numpy"] * 15 + ["torch", "torch", "jax", "autograd", "autograd"])
+    diff = None if iface == "numpy" or w.random() < 0.4 else "backprop"
     r = f.random()
     if r < 0.30:
         store = {"kind": "true", "cachesize": f.choice([1, 2, 3, 5, 8, 10000, 10000])}
@@ -251,7 +308,7 @@ def gen_case(streams, tier):
         store = {"kind": "lru", "capacity": f.randint(1, 8)}
     else:
         store = {"kind": "random", "evict_p": f.choice([0.05, 0.15, 0.4]), "seed": f.getrandbits(32)}
-    pool = [_gen_base(w, n) for _ in range(w.randint(1, 3))]
+    pool = [_gen_base(w, n, big) for _ in range(w.randint(1, 2) if big else w.randint(1, 3))]
     mutators = {}
     for _ in range(w.randint(2, 8)):
         src = w.choice(pool)
@@ -283,8 +340,10 @@ def gen_case(streams, tier):
         # recent pool entries (the near-duplicates and derived copies) are drawn more often
         calls.append({"tapes": [(len(pool) - 1 - min(len(pool) - 1, int(w.expovariate(0.35))))
                                 if w.random() < 0.5 else w.randrange(len(pool)) for _ in range(nt)]})
+    if iface != "numpy":
+        entry = "execute"
     return {"n_wires": n, "store": store, "entry": entry, "pool": pool, "calls": calls,
-            "mutators": mutators}
+            "mutators": mutators, "iface": iface, "diff": diff}
 
 
 # ------------------------------------------------------------------------------------------------
@@ -358,8 +417,37 @@ def run_case(case):
                 else:
                     objs[i] = src.copy(shots=d["shots"])
             else:
-                objs[i] = qgen.build_tape(spec)
+                objs[i] = build_tape(spec)
         return objs[i]
+
+    iface, diff = case.get("iface", "numpy"), case.get("diff")
+
+    def to_iface(tape):
+        """The same tape with every parameter held by the case's array library."""
+        if iface == "numpy":
+            return tape
+        if iface == "torch":
+            import torch
+
+            conv = lambda x: torch.tensor(np.asarray(x))  # noqa: E731
+        elif iface == "jax":
+            import jax
+
+            jax.config.update("jax_enable_x64", True)
+            conv = lambda x: jax.numpy.asarray(np.asarray(x))  # noqa: E731
+        else:
+            from pennylane import numpy as pnp
+
+            conv = lambda x: pnp.array(np.asarray(x), requires_grad=False)  # noqa: E731
+        pars = tape.get_parameters(trainable_only=False)
+        new = tape.bind_new_parameters([conv(x) for x in pars], list(range(len(pars))))
+        new.trainable_params = tape.trainable_params
+        return new
+
+    _plain_build = qgen.build_tape
+
+    def build_tape(spec):
+        return to_iface(_plain_build(spec))
 
     has_shots = any(t.get("shots") for t in case["pool"])
     counters = {"calls": 0, "tapes": 0, "dups_in_batch": 0}
@@ -373,11 +461,13 @@ def run_case(case):
         counters["dups_in_batch"] += len(keys) - len(set(keys))
         distinct_in_batch = len(set(keys))
         sig = {"store": st["kind"], "entry": case["entry"]}
+        if iface != "numpy":
+            sig["iface"] = iface
         try:
             if case["entry"] == "qnode":
                 ref = [_qnode_call(specs[0], ref_dev, False)]
             else:
-                ref = list(qp.execute([qgen.build_tape(s) for s in specs], ref_dev, diff_method=None,
+                ref = list(qp.execute([build_tape(s) for s in specs], ref_dev, diff_method=diff,
                                       cache=False))
             ref = qgen.to_jsonable(ref)
         except Exception as e:  # noqa: BLE001 - generated circuit invalid without any cache: skip call
@@ -388,7 +478,7 @@ def run_case(case):
             if case["entry"] == "qnode":
                 got = [_qnode_call(specs[0], dev, cache, cachesize)]
             else:
-                got = list(qp.execute([tape_obj(i) for i in call["tapes"]], dev, diff_method=None,
+                got = list(qp.execute([tape_obj(i) for i in call["tapes"]], dev, diff_method=diff,
                                       cache=cache, cachesize=cachesize))
             got = qgen.to_jsonable(got)
         except Exception as e:  # noqa: BLE001 - observation
@@ -418,7 +508,7 @@ def run_case(case):
                 owner = None
                 try:
                     allref = qgen.to_jsonable(list(qp.execute(
-                        [qgen.build_tape(s) for s in case["pool"]], ref_dev, diff_method=None, cache=False)))
+                        [build_tape(s) for s in case["pool"]], ref_dev, diff_method=diff, cache=False)))
                     owner = [j for j, rr in enumerate(allref) if _close(g, rr) and not case["pool"][j].get("shots")]
                 except Exception:  # noqa: BLE001
                     pass
@@ -442,6 +532,9 @@ def run_case(case):
         ev = []
     counters["store:" + st["kind"]] = 1
     counters["entry:" + case["entry"]] = 1
+    counters["iface:" + iface + ("+backprop" if diff else "")] = 1
+    if case["n_wires"] >= 5:
+        counters["cases_with_large_array_parameters"] = 1
     for k, v in case.get("mutators", {}).items():
         counters["mutator:" + k] = v
     nontrivial = bool(counters["dups_in_batch"] or (sc is not None and (sc.hits or sc.evictions))
